@@ -319,29 +319,27 @@ def run_parsers(R, tonic, comp, enabled, tag=''):
                 R.check(('readbody', None) in v and all(x[0] == 'readbody' or x == ('err', 'out_of_range') for x in v), 'C05.R6', 'flag%s-accepted%s' % (k[0], tag), site(b, gb), 'flag %s (encoding %s) leads to ReadBody (or the size refusal): %r' % (k[0], k[1], sorted(map(str, v))))
         # the value stored as ReadBody.compression: None on the flag-0 paths, self.encoding on the flag-1 paths
         fields = rba['fields']
-        comp = mirlib.simplify(b.origin(rbops[fields.index('compression')]))
-        if not (comp and comp[0] == 'phi' and len(comp) > 2 and isinstance(comp[2], int)):
-            raise CheckError('UNRECOGNISED: ReadBody.compression is not chosen per flag value: %s' % show(comp)[:120])
-        cl = comp[2]
+        # by feasible path from the flag read to the ReadBody construction: what is stored as ReadBody.compression
+        prow = mirlib.path_rows(b, start=gt['t'], stop={rbb}, relevant=lambda sub: is_flag(sub) or is_enc(sub), limit=200000)
         nw = 0
-        for wb in writers_of(b, cl):
-            for w in block_writes(b, wb, cl):
-                if w[0] == 'variant':
-                    val = ('agg', {'variant': w[2]}, w[3])
-                elif w[0] == 'term':
-                    val = mirlib.simplify(w[1])
-                else:
-                    val = ('?',)
-                kind = 'none' if (val[0] == 'agg' and val[1].get('variant') == 'None') else ('encoding' if mentions_field(val, 'encoding') else '?')
-                wrows = decision_rows(b, gt['t'], {wb}, relevant=is_flag)
-                fl = {row_of(c)[0] for c, _ in wrows}
-                nw += 1
-                if kind == 'none':
-                    R.check(fl == {0}, 'C05.R6', 'flag0->identity' + tag, site(b, wb), 'compression = None is chosen exactly on the flag-0 paths: flags %r' % sorted(map(str, fl)))
-                elif kind == 'encoding':
-                    R.check(fl == {1}, 'C05.R6', 'flag1->self.encoding' + tag, site(b, wb), 'compression = self.encoding is chosen exactly on the flag-1 paths: flags %r' % sorted(map(str, fl)))
-                else:
-                    R.bad('C05.R6', 'compression-sources' + tag, site(b, wb), 'ReadBody.compression can be %s: neither None nor self.encoding' % show(val)[:100])
+        seenv = set()
+        for cons, path in prow:
+            if path[-1] != rbb:
+                continue
+            fl = row_of(cons)[0]
+            val = strip_refs(mirlib.simplify(b.origin_on_path(rbops[fields.index('compression')], path)))
+            kind = 'none' if (val[0] == 'agg' and val[1].get('variant') == 'None') else ('encoding' if mentions_field(val, 'encoding') else '?')
+            if (fl, kind) in seenv:
+                continue
+            seenv.add((fl, kind))
+            nw += 1
+            if kind == 'none':
+                R.check(fl == 0, 'C05.R6', 'flag0->identity' + tag, site(b, rbb), 'compression = None is stored exactly on the flag-0 paths: flag %r' % (fl,))
+            elif kind == 'encoding':
+                R.check(fl == 1, 'C05.R6', 'flag1->self.encoding' + tag, site(b, rbb), 'compression = self.encoding is stored exactly on the flag-1 paths: flag %r' % (fl,))
+            else:
+                R.bad('C05.R6', 'compression-sources' + tag, site(b, rbb), 'ReadBody.compression can be %s: neither None nor self.encoding' % show(val)[:100])
+        R.check({(0, 'none'), (1, 'encoding')} <= seenv, 'C05.R6', 'compression-sources' + tag, site(b, rbb), 'flag 0 -> None and flag 1 -> self.encoding both occur: %r' % sorted(map(str, seenv)))
         R.floor('C05.R6', 'compression writers' + tag, nw, 2)
 
     # ---------------------------------------------------------------- R7 per-message opt-out
